@@ -646,12 +646,17 @@ def _elementwise2(a, b, op, outkind=None):
         y = _cast_expr(rb(idx), kb, argkind)
         return op(x, y)
 
+    if len(shape) == 0:
+        # numpy: an elementwise operation whose operands are all zero-dimensional returns a scalar, not an array
+        return wrap(fn(()))
     return SymArr.fresh(shape, fn, outkind)
 
 
 def _elementwise1(a, op, outkind=None):
     a = as_symarr(a)
     fz = a.frozen()
+    if a.ndim == 0:
+        return wrap(op(fz(())))
     return SymArr.fresh(a.shape, lambda idx: op(fz(idx)), outkind or a.kind)
 
 
